@@ -136,7 +136,8 @@ def run_property(pid, tier, seed, keep=False):
                                                 "harness": rs["harness"], "driver": rs["driver"], "ops": o["ops"], "impl": o["impl"],
                                                 "seed": seed, "tier": tier}, True))
                 # disagreements between model and implementation
-                for d in r.disagreements[:5]:
+                shrink_deadline = time.time() + 90
+                for d in r.disagreements[:3]:
                     payload = {"property": pid, "kind": "correspondence", "broken": "model/impl correspondence stream '%s'" % rs["harness"],
                                "harness": rs["harness"], "driver": rs["driver"], "ops": d["ops"], "impl": d["impl"], "model": d["model"],
                                "first_diff_line": d["first_diff_line"], "note": d.get("note"), "seed": seed, "tier": tier,
@@ -145,9 +146,11 @@ def run_property(pid, tier, seed, keep=False):
                     try:
                         if d["first_diff_line"] >= 0:
                             def still_bad(cand, rs=rs):
+                                if time.time() > shrink_deadline:
+                                    return False
                                 bad, _, _ = _rerun_case(sc, rs, cand)
                                 return bad
-                            small = core.shrink_case(d["ops"], still_bad, max_iter=150)
+                            small = core.shrink_case(d["ops"], still_bad, max_iter=60)
                             bad, reports, rr = _rerun_case(sc, rs, small)
                             if bad:
                                 payload["ops_shrunk"] = small
@@ -168,7 +171,15 @@ def run_property(pid, tier, seed, keep=False):
                 cov["disagreements_checked"] += len(r.disagreements)
             # --- failing-input search when an obligation or the tie broke but no input was found yet
             if (problems or any(not f for _, f in violations)) and not any(f for _, f in violations):
-                boosted = _boosted_search(sc, pid, spec, tier, seed, known)
+                boosted = None
+                if spec.get("search"):
+                    # family-specific failing-input search (e.g. free-running races repeated under a time budget);
+                    # returns a replay payload like _boosted_search's, or None
+                    try:
+                        boosted = spec["search"](sc, pid, spec, tier, seed, known)
+                    except Exception as ex:
+                        core.log("search hook failed: %r" % (ex,))
+                boosted = boosted or _boosted_search(sc, pid, spec, tier, seed, known)
                 if boosted:
                     violations.insert(0, (boosted, True))
             # --- known findings: replay listed witnesses
